@@ -13,7 +13,9 @@ package main
 
 import (
 	"context"
+	"flag"
 	"fmt"
+	"math/rand"
 	"os"
 	"sort"
 	"strconv"
@@ -351,6 +353,8 @@ func run(line string) string {
 			return preTail(&scalibr.ScanConfig{FilesystemExtractors: fsP, StandaloneExtractors: stP, Detectors: dP, Capabilities: &c})
 		case "prer":
 			return runPreRoots(t)
+		case "enab":
+			return runEnable(t)
 		case "pref":
 			c := capsOf(t[1])
 			return preTail(&scalibr.ScanConfig{Detectors: []detector.Detector{fakeDet{fake{"fakedet", capsOf(t[2])}, unhexList(t[3])}}, Capabilities: &c})
@@ -593,6 +597,15 @@ func runSeq(t []string) string {
 
 // ---- generation
 
+func contains(xs []string, x string) bool {
+	for _, y := range xs {
+		if y == x {
+			return true
+		}
+	}
+	return false
+}
+
 func keysOf[T any](m map[string][]T) []string {
 	var out []string
 	for k := range m {
@@ -603,6 +616,7 @@ func keysOf[T any](m map[string][]T) []string {
 }
 
 func main() {
+	only := flag.String("only", "", "restrict the stream: enab (auto-enabling observed through Scan, borrowed by C01)")
 	o := hx.Parse()
 	out := hx.NewOut()
 	defer out.Flush()
@@ -623,6 +637,102 @@ func main() {
 	keys := map[string][]string{"fs": keysOf(el.VerifNames()), "st": keysOf(sl.VerifNames()), "det": keysOf(dl.VerifNames())}
 	plugins := map[string][]string{"fs": keysOf(el.All), "st": keysOf(sl.All), "det": keysOf(dl.All)}
 	kinds := []string{"fs", "st", "det"}
+
+	// auto-enabling (both tiers): 1..3 detectors whose RequiredExtractors() overlap / repeat / are enabled explicitly already /
+	// are of the standalone kind / are unknown
+	enabCases := func(n int, r *rand.Rand) {
+		pool := append(append([]string{}, enableFS...), enableST...)
+		hl := func(xs []string) string {
+			o := make([]string, len(xs))
+			for i, x := range xs {
+				o[i] = hx.Hex(x)
+			}
+			return hx.Join(o, ",")
+		}
+		// systematic: every pool name required by two detectors (and twice inside one), with and without being enabled explicitly
+		for _, p := range pool {
+			emit("enab - - " + hl([]string{p}) + "|" + hl([]string{p}))
+			emit("enab - - " + hl([]string{p, p}))
+			emit("enab - - " + hl([]string{p, enableFS[0], p}) + "|" + hl([]string{enableFS[0]}) + "|" + hl([]string{p}))
+			if contains(enableFS, p) {
+				emit("enab " + hl([]string{p}) + " - " + hl([]string{p}) + "|" + hl([]string{p}))
+			} else {
+				emit("enab - " + hl([]string{p}) + " " + hl([]string{p}) + "|" + hl([]string{p}))
+			}
+		}
+		emit("enab - - " + hl(enableFS) + "|" + hl(enableFS) + "|" + hl(enableST) + "|" + hl(pool))
+		emit("enab - - " + hl([]string{"nope"}))
+		emit("enab - - -|-")
+		for i := 0; i < n; i++ {
+			var fsx, stx []string
+			for _, p := range enableFS {
+				if r.Intn(5) == 0 {
+					fsx = append(fsx, p)
+				}
+			}
+			for _, p := range enableST {
+				if r.Intn(6) == 0 {
+					stx = append(stx, p)
+				}
+			}
+			var ds []string
+			for k := 1 + r.Intn(4); k > 0; k-- {
+				var req []string
+				for m := r.Intn(4); m > 0; m-- {
+					switch {
+					case r.Intn(40) == 0:
+						req = append(req, "nope")
+					case len(req) > 0 && r.Intn(4) == 0:
+						req = append(req, req[r.Intn(len(req))])
+					default:
+						req = append(req, pool[r.Intn(len(pool))])
+					}
+				}
+				ds = append(ds, hl(req))
+			}
+			emit("enab " + hl(fsx) + " " + hl(stx) + " " + strings.Join(ds, "|"))
+		}
+	}
+	if *only == "enab" {
+		enabCases(o.N, hx.Rng(o))
+		return
+	}
+	enabCases(300, rand.New(rand.NewSource(o.Seed+7)))
+	// overlapping name lists (both tiers): group + member, member + group, the same name twice, group + group, all + anything
+	for _, k := range kinds {
+		tab := map[string][]string{}
+		for _, key := range keys[k] {
+			ps, err := fromNames(k, []string{key})
+			if err != nil {
+				continue
+			}
+			for _, p := range ps {
+				tab[key] = append(tab[key], p.Name())
+			}
+		}
+		for _, g := range keys[k] {
+			emit("names " + k + " k " + hx.Hex(g) + "," + hx.Hex(g))
+			emit("names " + k + " k " + hx.Hex("all") + "," + hx.Hex(g))
+			emit("names " + k + " k " + hx.Hex(g) + "," + hx.Hex("all"))
+			if len(tab[g]) < 2 && (len(tab[g]) == 0 || tab[g][0] == g) {
+				continue // a plugin's own name
+			}
+			ms := append([]string{}, tab[g]...)
+			sort.Strings(ms)
+			for i, m := range ms {
+				if i%3 == 0 || len(ms) < 8 {
+					emit("names " + k + " k " + hx.Hex(g) + "," + hx.Hex(m))
+					emit("names " + k + " k " + hx.Hex(m) + "," + hx.Hex(g))
+					emit("names " + k + " k " + hx.Hex(m) + "," + hx.Hex(g) + "," + hx.Hex(m))
+				}
+			}
+			for _, g2 := range keys[k] {
+				if g2 != g && len(tab[g2]) >= 2 {
+					emit("names " + k + " k " + hx.Hex(g) + "," + hx.Hex(g2))
+				}
+			}
+		}
+	}
 
 	// exhaustive part (both tiers)
 	for _, r := range caps {
